@@ -144,3 +144,10 @@ def rules(t):
     out = _rules_c14_w5(t)
     out.append(W5.full_visit(t, "C14.e", "every channel is visited in every get_packets_to_send (a visit is what makes an unreliable channel drain and drop what does not fit): the loop over channel_send_order is left only when exhausted", "RenetClient::get_packets_to_send", "channel_send_order"))
     return out
+
+_rules_C14_w5d = rules
+def rules(t, *a, **kw):
+    import rules.wave5 as W5
+    out = _rules_C14_w5d(t, *a, **kw)
+    out.append(W5.budget_field_prov(t, "C14.f"))
+    return out
